@@ -37,7 +37,7 @@ FIRST = {
     "C09-global-labels-dropped-without-own-labels": "exit 2 (lost anchor: enumerate() pipeline) -> witness confirmation (witness_trailer.rs)",
     "C10-idle-never-cleared": "exit 2 (a contracted helper was deleted) -> witness confirmation (witness_idle_cycle.rs: two idle periods)",
     "C20-w3m1-recoveryhandle-into-inner-no-longer-retries-arc-": "exit 2 (spin on strong_count never ends without environment progress) -> c20_into_inner_vs_starting_emissions_rg (environment acts on loads of the strong count too; an emission may start between check and act)",
-    "C05-w3m1-atomicbucket-clear-with-destroys-every-full-batc": "exit 0 (epoch reclamation was out of the harnesses' reach) -> c05b_reclaim_only_deferred (33-block chain, epoch held back)",
+    "C05-w3m1-atomicbucket-clear-with-destroys-every-full-batc": "exit 0 (epoch reclamation was out of the harnesses' reach) -> c05b_reclaim_only_deferred (33-block chain, epoch held back, Shared::into_owned stubbed to assert!(false): never executed by the real code under that schedule)",
     "C09-prefix-separator": "exit 2 (Option::map_or outside vstd) -> prelude of assumed Option combinators",
     "C09-uncommitted-check-prefixed": "exit 2 (ghost anchor was the edited line) -> structural anchors",
     "C06-overwrite-on-lost-race": "exit 2 (RawEntryMut::insert not in the stub) -> stub widened, no-overwrite as stub precondition",
